@@ -150,7 +150,7 @@ PROPS["C08"] = {
 PROPS["C10"] = {
     "level": "proof",
     "level_text": "Theorems on the protocol model of a run: exit 0 iff no git invocation failed; a failing run writes no report and an error message; exit 0 carries the complete report; `config --get` exit 1 = absent. Regenerated Wait()/close/Next-site table checked by decide (each feeder is awaited only after its iterator was drained). REGENERATED control flow of mainImplementation: nothing is written to stdout before the scan succeeded, no error return after a report was written (kernel evaluation). Fault enumeration on the real binary: a fault-injecting git first on PATH (9 invocation kinds x truncation at any fraction of the output, with/without line alignment x exit statuses x SIGKILL x failure after full output), each object removed in turn, 20 s hang timeout; every observation is judged against the model's prediction (all-or-nothing). `scan_errors_consulted`: each of the 17 statements of the scan driver that assign err is immediately followed by `if err != nil { return <error> }` (regenerated statement list). `config_get_exit1_only` (regenerated statements of git/gitconfig.go): only exit status 1 of `git config --get` means unset. Liveness: see the note.",
-    "level_note": "Termination ('never hangs') is proved of a step-level protocol model of a scanning phase (Model/Pipeline, Model/Pipeline3: feeder goroutine, pipeline stages with bounded OS pipes and unbuffered channels, git processes that may die at any moment, stages that may reject any line, the consumer's Next loop / Wait / <-errChan) for every number of roots, listed objects and pipe capacities: `scan_phase_no_deadlock`, `scan_phase_returns`, `batch_phase_never_hangs`; the order of seeded change C10h is shown to deadlock in the same model (`feeder_first_deadlocks`). Partial: the model's reading of Go channels, go-pipe (a stage that ends closes both of its ends) and the OS (EPIPE, EOF) is trusted and tied to the code by the pinned statement lists, the pinned stage table and the fault engine with a 20 s hang timeout; time, scheduler fairness beyond 'an enabled step is eventually taken', the two-stage reference pipeline and signals to git-sizer itself are not modelled. A subprocess that truncates its output but exits 0 is outside the property (indistinguishable from a smaller repository) and is not judged. Invalid options / ROOTs are covered by the opts engine (C14).",
+    "level_note": "Termination ('never hangs') is proved of a step-level protocol model of a scanning phase (Model/Pipeline, Model/Pipeline3: feeder goroutine, pipeline stages with bounded OS pipes and unbuffered channels, git processes that may die at any moment, stages that may reject any line, the consumer's Next loop / Wait / <-errChan) for every number of roots, listed objects and pipe capacities: `scan_phase_no_deadlock`, `scan_phase_returns`, `batch_phase_never_hangs`, `reference_phase_never_hangs`; the order of seeded change C10h is shown to deadlock in the same model (`feeder_first_deadlocks`). Partial: the model's reading of Go channels, go-pipe (a stage that ends closes both of its ends) and the OS (EPIPE, EOF) is trusted and tied to the code by the pinned statement lists, the pinned stage table and the fault engine with a 20 s hang timeout; time, scheduler fairness beyond 'an enabled step is eventually taken' and signals to git-sizer itself are not modelled. A subprocess that truncates its output but exits 0 is outside the property (indistinguishable from a smaller repository) and is not judged. Invalid options / ROOTs are covered by the opts engine (C14).",
     "technique": "Lean 4 proof on a protocol model + fault enumeration against the real binary",
     "modules": ["GitSizer.Props.C10"],
     "engines": [{"name": "fault", "quick": 480, "thorough": 24000, "per_shard": 30}, {"name": "opts", "quick": 160, "thorough": 8000, "per_shard": 10}],
